@@ -899,6 +899,11 @@ func (t *TBtree) readInnerNodeFrom(r *appendable.Reader) (*innerNode, error) {
 		return nil, err
 	}
 
+	if childCount == 0 {
+		// an inner node always has at least one child
+		return nil, ErrCorruptedFile
+	}
+
 	n := &innerNode{
 		t:       t,
 		nodes:   make([]node, childCount),
